@@ -108,6 +108,15 @@ def pool(rnd):
         lambda: ([[S("mfail"), rnd.randrange(2)]], "call"),
         lambda: ([[S("progn"), [S("inc")], [S("error"), Q(S("op-fail")), 1]]], "call"),
         lambda: ([[S("if"), [S("inc")], [S("boom")], 1]], "call"),
+        # the Go panic raised by a host MACRO and by a host SPECIAL OPERATOR (their own frames are on the stack then)
+        lambda: ([[S("inc")], [S("boom-macro")]], "load"),
+        lambda: ([[S("list"), [S("inc")], [S("boom-macro"), 1], [S("inc")]]], "load"),
+        lambda: ([[S("ignore-errors"), [S("inc")], [S("boom-macro")]], STATE], "load"),
+        lambda: ([[S("handler-bind"), [[S("x"), hnd("x", [[S("inc")], [S("boom-macro")]])]], [S("error"), Q(S("x")), 1]]], "load"),
+        lambda: ([[S("let"), [[S("v"), [S("inc")]]], [S("boom-op"), S("v")]]], "load"),
+        lambda: ([[S("ignore-errors"), [S("boom-op")]], [S("ignore-errors"), [S("boom-macro")]], [S("ignore-errors"), [S("boom-macro")]], STATE], "load"),
+        lambda: ([[S("funcall"), [S("lambda"), [], [S("inc")], [S("boom-macro")]]]], "load"),
+        lambda: ([[S("progn"), [S("inc")], [S("boom-macro")]]], "call"),
         lambda: ([[S("handler-bind"), [[S("x"), hnd("x", [[S("inc")], [S("boom")]])]], [S("error"), Q(S("x")), 1]]], "call"),
     ]
     return rnd.choice(choices)()
